@@ -102,6 +102,19 @@ CLAIMED["C23"] = {
   "design_ref": "DESIGN.md section 4 C23",
 }
 
+CLAIMED["C11"] = {
+  "text": "Static decision that every launch reachable from step/forward/reset_data/get_state/set_state is free of write-write and read-write conflicts between distinct threads except through atomics and tabled idioms: plain writes land on thread-determined cells (or store thread-invariant values), arrays written in a launch are read only at owned cells (aliased parameters included), plain reads of atomically updated shared cells are rejected, atomic results flow only into integer address arrays.",
+  "note": STATIC_NOTE + " Tabled idioms (branch-redundant kinematics, level-scheduled tree passes, data-partitioned flex filters) carry written arguments that are not mechanised; sleep-cycle waking is listed as unverified.",
+  "technique": "injectivity classification of index terms in thread space + alias-aware read/write conflict analysis over the kernel IR (R-RACE)",
+  "design_ref": "DESIGN.md section 4 C11, section 3 R-RACE",
+}
+CLAIMED["C17"] = {
+  "text": "Static decision of necessary conditions for memory safety: every write through an atomically allocated slot is dominated by a capacity comparison covering the whole block; (start, count) block descriptors never describe rows beyond the capacity; every launch binding the conditionally allocated compact workspace is guarded by at least the flags of the allocation predicate; each documented configuration constraint is rejected by a raise before any launch.",
+  "note": STATIC_NOTE + " Bounds that depend on model-data invariants and Warp tile internals are assumed.",
+  "technique": "linear normal forms of capacity guards + allocation/use condition agreement (contradiction rule) on host traces + validation presence (R-CAP, R-COND, R-VALID)",
+  "design_ref": "DESIGN.md section 4 C17",
+}
+
 NOT_APPLICABLE = {
   "C06": "optimality of an iterative float solve is a runtime quantity; no structural necessary condition beyond what C24/C25 decide",
   "C18": "equivalence of broadphases depends on geometric conservativeness of numeric filters and sort/scan arithmetic; a sibling text-diff of the NXN/SAP kernels would alarm on harmless refactors",
